@@ -33,6 +33,9 @@ func replayCounterexample(prop string, r *Result, rp map[string]interface{}, ver
 		return false
 	}
 	pkg, fn := name[:dot], name[dot+1:]
+	if i := strings.Index(fn, "#"); i >= 0 {
+		fn = fn[:i] // contract variant of the same function
+	}
 	oracle := filepath.Join(verifDir, "replay", pkg+".go.txt")
 	src, err := os.ReadFile(oracle)
 	if err != nil {
